@@ -71,6 +71,12 @@ def tasks(tier, seed):
             out.append({"fn": "nondestructive", "kwargs": {"models": ms, "n": n, "tier": tier}, "label": f"nondestructive/{ms},n={n}", "logic": "QF_NRA", "caps": {"max_seconds": 300, "solver_timeout_ms": 30000}})
         for n in ((2, 3) if tier == "quick" else (2, 3, 4, 6)):
             out.append({"fn": "destructive", "kwargs": {"models": ms, "n": n, "tier": tier}, "label": f"destructive/{ms},n={n}", "logic": "QF_NRA", "caps": {"max_seconds": 300, "solver_timeout_ms": 30000}})
+    if tier == "thorough":
+        # symbolic time scales also for the image / charge loaders (division by a symbolic scale: slow, may be inconclusive)
+        for ms in ("charge", "image"):
+            for n in (2, 3):
+                out.append({"fn": "nondestructive", "kwargs": {"models": ms, "n": n, "tier": "thorough_symbolic"}, "label": f"nondestructive/{ms},n={n}/symbolic_scales", "logic": "QF_NRA",
+                            "caps": {"max_seconds": 200, "solver_timeout_ms": 60000}})
     out.append({"fn": "dark_current_replay", "kwargs": {"n": 4 if tier == "quick" else 12}, "label": "witness/dark_current", "kind": "direct"})
     return out
 
@@ -84,7 +90,7 @@ MODS = ("pyxel.exposure.readout", "pyxel.detectors.readout_properties", "pyxel.m
         "pyxel.models.charge_collection.collection") + DATA_MODULES
 
 
-CONCRETE_SCALES = {"quick": ("all", "charge", "image"), "thorough": ("all",)}
+CONCRETE_SCALES = {"quick": ("all", "charge", "image"), "thorough": ("all", "charge", "image"), "thorough_symbolic": ("all",)}
 TIER = {"v": "quick"}
 
 
